@@ -193,7 +193,8 @@ def main(prop, tier):
             sim = entry[3] if len(entry) > 3 else None
             if prop == 'C15':
                 budget = max(500, budget // 4)
-            inv = ('VisitsWellFormed',) + (('NormPreserved',) if conf == 'gates' and tier == 'quick' and prop == 'C03' else ())
+            inv = ('VisitsWellFormed',) + (('NormPreserved',) if conf == 'gates' and tier == 'quick' and prop == 'C03' else ()) \
+                + (('DiscoverAlgRefinesRule',) if prop == 'C12' else ())
             items = enumerate_exec(rep, name, consts, wd, inv, sim)
             rep.cov.setdefault('enumerated_programs', {})[name] = len(items)
             if len(items) > budget:
@@ -211,6 +212,11 @@ def main(prop, tier):
             w = f['witness']
             jobs.append({'id': 'witness/' + f['id'], 'prog': dict(passes.EMPTY_PROG, natives=passes.exact_natives()),
                          'text': w['text'], 'nv': w.get('nv', 0), 'nq': w.get('nq', 2), 'sites': spec['sites'], 'seed': 1})
+    if prop in ('C03', 'C13'):
+        # the emulator as a state machine: every interleaving of parallel branches gives the textual-order state
+        for w in range(1, 6):
+            res = core.run_tlc('EmuMachine', 'SPECIFICATION Spec\nCONSTANTS\n Which = %d\nINVARIANT Confluent\nINVARIANT NormInv\n' % w, wd, workers=2)
+            rep.add_model_check('EmuMachine[tree %d] Confluent NormInv (all interleavings)' % w, res)
     if prop == 'C08':
         # R7: the transcription of the implementation's walker refines the requirement and terminates
         for w in range(1, 7):
